@@ -131,20 +131,24 @@ def _steps_check(ctx, pid, kind, cfgs, search_n, table_n, helper_n, deps, dense_
     for h in helpers:
         n, s = h["n"], min(h["s"], h["n"] - 1)
         by_problem[(n, s)].append((h["v"], {"cls": "helper", "p": {}, "N": n, "what": h["src"]}))
-    # link 1: exhaustive search below the cheapest implementation value
+    # link 1: exhaustive search below the cheapest STREAM (a helper's return value is not a schedule:
+    # it bounds nothing, it is only compared with the optimum afterwards)
     insts, keys = [], []
     for (n, s), lst in sorted(by_problem.items()):
-        if 2 <= n <= search_n and s >= 1:
-            claim = min(x for x, _ in lst)
+        streams = [x for x, t in lst if t["cls"] != "helper"]
+        if 2 <= n <= search_n and s >= 1 and streams:
             insts.append({"n": n, "cm": s, "cd": 0, "uf": 1, "wd": 0, "rd": 0, "deps": deps,
-                          "oneread": 0, "claim": claim})
+                          "oneread": 0, "claim": min(streams)})
             keys.append((n, s))
     best = search(ctx, insts)
     optimum = {}
     for idx, key in enumerate(keys, start=1):
         optimum[key] = best.get(idx, insts[idx - 1]["claim"])
     for (n, s), lst in sorted(by_problem.items()):
-        ref = optimum.get((n, s), min(x for x, _ in lst))
+        streams = [x for x, t in lst if t["cls"] != "helper"]
+        ref = optimum.get((n, s), min(streams) if streams else None)
+        if ref is None:
+            continue            # only a helper value for this (n, s): judged by the tables below
         for val, t in lst:
             if val != ref:
                 searched = (n, s) in optimum
